@@ -14,7 +14,7 @@ ID = 'C05'
 LEVEL = 'fault_enumeration'
 TECHNIQUE = 'bounded-exhaustive words + exhaustive single-fault injection at every token boundary of generated documents'
 
-SPECS = {'quick': dict(R=5, L=3, A=3, Z=3, CR=4), 'thorough': dict(R=6, L=4, A=4, Z=4, CR=5)}
+SPECS = {'quick': dict(R=5, L=3, A=3, Z=3, CR=4, E=3), 'thorough': dict(R=6, L=4, A=4, Z=4, CR=5, E=4)}
 
 FAULTS = ['{', '}', '$', '$$', '\\(', '\\)', '\\[', '\\]', '\\begin{itemize}', '\\end{itemize}']
 
